@@ -45,6 +45,10 @@ func buildGroovyMap(pathExprCtx *parser.PathExpressionContext) []core_domain.Cod
 			return nil
 		}
 	}
+	// a path without elements (a bare name, a string, `this`, a doc comment's statement): GetChild(1) would index out of range
+	if pathExprCtx.GetChildCount() < 2 {
+		return nil
+	}
 	pathChild := pathExprCtx.GetChild(1)
 	if pathChild != nil {
 		pathElement := pathChild.(*parser.PathElementContext)
